@@ -1,4 +1,7 @@
 open Model
 let () = Driver.main [
   { Driver.name = "sw"; run = sw_run; judge = sw_judge };
+  { Driver.name = "iset"; run = iset_run; judge = iset_judge };
+  { Driver.name = "ack"; run = ack_run; judge = ack_judge };
+  { Driver.name = "pnmap"; run = pnmap_run; judge = pnmap_judge };
 ]
